@@ -143,6 +143,11 @@ def e2e_configs(chk):
         ("3x2sb-m4", dict(w=192, h=128, n=5, bd=8, content=4, **{"cfg.enc_mode": 4, "cfg.hierarchical_levels": 2})),
         ("10bit-tiles-m6", dict(w=128, h=128, n=5, bd=10, content=2, **{"cfg.enc_mode": 6, "cfg.hierarchical_levels": 1, "cfg.tile_columns": 1})),
         ("1sb-wide-m8", dict(w=64, h=256, n=4, bd=8, content=0, **{"cfg.enc_mode": 8, "cfg.hierarchical_levels": 1})),
+        # pictures at least 608 wide and 352 high: the ME / TF / CDEF segment grids of load_default_buffer_configuration_settings are 1x1 below
+        # that size for EVERY core count, so smaller pictures cannot show a leak of that part of the parallel geometry into coding
+        # (seeded changes C05-1: CDEF strength search at segment borders, 10-bit; C05-2: per-thread temporal-filter state)
+        ("multiseg-8bit-m8", dict(w=640, h=384, n=6, bd=8, content=4, **{"cfg.enc_mode": 8, "cfg.hierarchical_levels": 2})),
+        ("multiseg-10bit-m8", dict(w=640, h=384, n=4, bd=10, content=2, **{"cfg.enc_mode": 8, "cfg.hierarchical_levels": 2})),
     ]
     if not quick:
         base += [
